@@ -225,6 +225,111 @@ type history struct {
 	geom                        string // VerifGeometry of the first instance
 	lastIdx                     [3]int // per tier: index of the .dat that grew last since the last (re)open, -1 none
 	rotated                     bool
+	ever                        []stored // every file id ever stored, with the length of its latest chunk
+}
+
+type stored struct {
+	f fid
+	n int
+}
+
+func (h *history) remember(f fid, n int) {
+	for i := range h.ever {
+		if h.ever[i].f == f {
+			h.ever[i].n = n
+			return
+		}
+	}
+	h.ever = append(h.ever, stored{f, n})
+}
+
+// sweep looks up EVERY file id ever stored in this history (evicted ones
+// included) with minimum sizes that the stored chunk satisfies: the stored length
+// (for chunks above the unit size the memory tier cannot answer), 1, or a slice of
+// the whole chunk.  A hit must be the bytes stored under that id.
+func (h *history) sweep(r *hx.Rng) {
+	for _, e := range h.ever {
+		hitBefore := h.hit
+		h.hit = false
+		switch k := r.Intn(8); {
+		case k < 5 || e.n == 0:
+			h.get(e.f, uint64(e.n))
+		case k < 6:
+			h.get(e.f, 1)
+		default:
+			h.getSlice(e.f, 0, uint64(e.n))
+		}
+		h.out.Count("sweep-lookup", 1)
+		if h.hit {
+			h.out.Count("sweep-lookup-hit", 1)
+		} else {
+			h.out.Count("sweep-lookup-miss", 1)
+		}
+		h.hit = h.hit || hitBefore
+	}
+}
+
+// rotationHistory: one on-disk tier is driven through a full rotation cycle and
+// beyond (the reset volumes are filled again) with many distinct file ids whose
+// chunks are sized so that every volume holds two or more of them; after every few
+// stores and at the end every id ever stored is looked up.
+func rotationHistory(out *hx.Out, r *hx.Rng) {
+	tier := r.Intn(3)
+	unit := int64(r.PickInt([]int{8, 16, 24, 32}))
+	u := int(unit)
+	var diskUnits int64
+	var lo, hi int // chunk sizes
+	switch tier {
+	case 0: // segments of diskUnits*u/16
+		diskUnits = int64(r.PickInt([]int{32, 64}))
+		lo, hi = u-7, u
+	case 1: // segments of diskUnits*u/8
+		diskUnits = int64(r.PickInt([]int{32, 32, 64}))
+		lo, hi = u+1, u+8
+	default: // segments of diskUnits*u/4
+		diskUnits = 64
+		lo, hi = 4*u+1, 4*u+8
+	}
+	maxEntries := int64(r.PickInt([]int{1, 2, 1000}))
+	h := newHistory(out, maxEntries, diskUnits, unit)
+	nstores := r.Range(12, 20)
+	if out.Tier == "thorough" {
+		nstores = r.Range(12, 40)
+	}
+	nextKey := uint64(1)
+	restartAt := -1
+	if r.Chance(1, 3) {
+		restartAt = r.Range(4, nstores-1)
+	}
+	for j := 0; j < nstores; j++ {
+		var f fid
+		if len(h.ever) > 0 && r.Chance(1, 6) {
+			f = h.ever[r.Intn(len(h.ever))].f // an id stored before gets a new chunk
+		} else {
+			f = fid{vid: r.PickU64([]uint64{3, 4}), key: nextKey, cookie: r.PickU64([]uint64{0x637037d6, 0x11111111})}
+			nextKey++
+		}
+		n := r.Range(lo, hi)
+		if r.Chance(1, 10) { // now and then a chunk for another tier
+			n = r.PickInt([]int{1, u, u + 1, 4 * u, 4*u + 1})
+		}
+		h.store(f, genData(r, n))
+		h.remember(f, n)
+		out.Count("op:store", 1)
+		if j == restartAt {
+			h.restart(r, r.PickInt([]int{modeForced, modeTies, modeNatural, modeCrash}))
+			out.Count("op:restart", 1)
+		}
+		if r.Chance(1, 3) {
+			h.sweep(r)
+		}
+	}
+	h.sweep(r)
+	out.Count("rotation-history-tier:"+fmt.Sprint(tier), 1)
+	if h.rotated {
+		out.Count("histories-with-rotation", 1)
+	}
+	h.finish(out, "rotation")
 }
 
 var tierOf = []int{0, 0, 1, 1, 1, 2, 2}
@@ -288,7 +393,11 @@ func (h *history) store(f fid, d []byte) {
 func (h *history) get(f fid, minSize uint64) {
 	got := h.c.GetChunk(f.String(), minSize)
 	h.ops = append(h.ops, fmt.Sprintf("Get %s %s", f.coq(), hx.N(minSize)))
-	h.impl = append(h.impl, coqBytes(got))
+	if printable(got) {
+		h.impl = append(h.impl, coqBytes(got))
+	} else { // not what any store wrote (chunk contents are printable), e.g. needle padding
+		h.impl = append(h.impl, hx.Bytes(got))
+	}
 	h.canon = append(h.canon, fmt.Sprintf("G%s>=%d", f.String(), minSize))
 	if len(got) > 0 {
 		h.hit = true
@@ -333,7 +442,7 @@ func (h *history) finish(out *hx.Out, kind string) {
 
 func main() {
 	out := hx.Flags("C31", 120)
-	out.Rule = "histories of 6-24 (thorough: 8-40) operations (store 45%, GetChunk 32%, GetChunkSlice 10%, restart 13%: 40% forced timestamps with a random segment order and an independent leveldb-rebuild flag per segment incl. LOG time = .idx time, 15% forced with two equal .dat times in every tier, 25% natural = clean Shutdown and the timestamps the file system left, 20% crash = no Shutdown, the directory copied as is and the copy opened; order and flags are always read back from the files right before re-opening) on NewTieredChunkCache(maxEntries in {1,2,4,1000}, scratch dir, diskSizeInUnit in {8,16,32,64}, unitSize in {8,16,24,32}); file ids over volume ids {3,4} x keys {1,2,3,0x1234} x cookies {0x637037d6,0x11111111} in canonical spelling (70% of the histories use one file id per key, 30% any) plus malformed ids; chunk sizes 0 and around unitSize / 4*unitSize (tier limits), min sizes 0/1/stored length/limits and (1 in 16) 2^63-1/2^63/2^63+5/2^64-1; slices with offset 0 (2/3) or 1..unit, 1 in 6 with length 2^63-1/2^63/2^64-5/2^64-1 and offset 0/1/5/2^63-1 and 1 in 6 with offset 2^64-{1,3,8,9,17}/2^63/2^63+1 and length 0/1/2/6/10/unit/4*unit/2^63/2^64-1, half of them aimed (offset 2^64-e, length e..e+unit, file id of the latest small store) (run under recover; a panic is the answer [256], which the model never admits); first cases are the fixed witnesses of finding 0 and of the repaired findings 1 and 2 (these must be verdict 0); non-trivial = some lookup returned bytes; distinct = canonical parameter + operation list"
+	out.Rule = "40% ROTATION histories: one disk tier (0/1/2) driven through a full rotation cycle and beyond with 12-20 (thorough 12-40) stores of mostly fresh file ids (keys 1,2,3,...; 1 in 6 re-stores an earlier id) whose chunks are sized for that tier so that every volume holds 2-4 of them (tier 0: unit-7..unit with maxEntries 1/2/1000, tier 1: unit+1..unit+8, tier 2: 4*unit+1..4*unit+8; 1 in 10 a chunk for another tier), 1 in 3 with one restart (any mode) in the middle; after every store with chance 1/3 and at the end a SWEEP looks up every file id ever stored in the history (evicted ones included) by GetChunk(id, stored length) / GetChunk(id, 1) / GetChunkSlice(id, 0, stored length); 60% general histories (each also ends with such a sweep): histories of 6-24 (thorough: 8-40) operations (store 45%, GetChunk 32%, GetChunkSlice 10%, restart 13%: 40% forced timestamps with a random segment order and an independent leveldb-rebuild flag per segment incl. LOG time = .idx time, 15% forced with two equal .dat times in every tier, 25% natural = clean Shutdown and the timestamps the file system left, 20% crash = no Shutdown, the directory copied as is and the copy opened; order and flags are always read back from the files right before re-opening) on NewTieredChunkCache(maxEntries in {1,2,4,1000}, scratch dir, diskSizeInUnit in {8,16,32,64}, unitSize in {8,16,24,32}); file ids over volume ids {3,4} x keys {1,2,3,0x1234} x cookies {0x637037d6,0x11111111} in canonical spelling (70% of the histories use one file id per key, 30% any) plus malformed ids; chunk sizes 0 and around unitSize / 4*unitSize (tier limits), min sizes 0/1/stored length/limits and (1 in 16) 2^63-1/2^63/2^63+5/2^64-1; slices with offset 0 (2/3) or 1..unit, 1 in 6 with length 2^63-1/2^63/2^64-5/2^64-1 and offset 0/1/5/2^63-1 and 1 in 6 with offset 2^64-{1,3,8,9,17}/2^63/2^63+1 and length 0/1/2/6/10/unit/4*unit/2^63/2^64-1, half of them aimed (offset 2^64-e, length e..e+unit, file id of the latest small store) (run under recover; a panic is the answer [256], which the model never admits); first cases are the fixed witnesses of finding 0 and of the repaired findings 1 and 2 (these must be verdict 0); non-trivial = some lookup returned bytes; distinct = canonical parameter + operation list"
 	root := hx.NewRng(out.Seed)
 
 	// ----- fixed witnesses of finding 0 (needle key shared, volume id or cookie differs) -----
@@ -395,11 +504,29 @@ func main() {
 		h.finish(out, "fixed-offset-2^63")
 	}
 
+	// ----- fixed rotation case (props: c31_rotation_witness): the middle tier (three segments
+	// of 32 bytes, two 9-byte chunks each) through a full cycle and the refill of the reset
+	// volumes, every id ever stored looked up after every store; must be verdict 0 -----
+	if out.Seed%1000 == 0 {
+		h := newHistory(out, 2, 32, 8)
+		for i := 1; i <= 10; i++ {
+			h.store(fid{vid: 3, key: uint64(i), cookie: 0xaabbccdd}, []byte(strings.Repeat(string(rune(64+i)), 9)))
+			for k := 1; k <= i; k++ {
+				h.get(fid{vid: 3, key: uint64(k), cookie: 0xaabbccdd}, 9)
+			}
+		}
+		h.finish(out, "fixed-rotation")
+	}
+
 	vids := []uint64{3, 4}
 	keys := []uint64{1, 2, 3, 0x1234}
 	cookies := []uint64{0x637037d6, 0x11111111}
 	for i := out.Len(); i < out.N; i++ {
 		r := root.Fork()
+		if r.Chance(2, 5) {
+			rotationHistory(out, r)
+			continue
+		}
 		unit := int64(r.PickInt([]int{8, 16, 24, 32}))
 		diskUnits := int64(r.PickInt([]int{8, 16, 32, 64}))
 		maxEntries := int64(r.PickInt([]int{1, 2, 4, 1000}))
@@ -435,6 +562,7 @@ func main() {
 				n := r.PickInt(sizes)
 				d := genData(r, n)
 				h.store(f, d)
+				h.remember(f, n)
 				if n <= u {
 					g := f
 					lastSmall = &g
@@ -505,6 +633,7 @@ func main() {
 				out.Count("op:restart", 1)
 			}
 		}
+		h.sweep(r) // at the end: every id ever stored
 		if h.rotated {
 			out.Count("histories-with-rotation", 1)
 		}
